@@ -64,12 +64,7 @@ func (r Int) MAX(a, b Int) Scalar {
 }
 /* -------------------------------------------------------------------------- */
 func (c Int) ABS(a Int) Scalar {
-  if c.Sign() == -1 {
-    c.NEG(a)
-  } else {
-    c.SET(a)
-  }
-  return c
+  return c.Abs(a)
 }
 /* -------------------------------------------------------------------------- */
 func (c Int) NEG(a Int) Int {
